@@ -21,6 +21,10 @@ type Task struct {
 	wake  chan struct{}
 	done  chan struct{}
 	prio  int
+	// PCT: where the goroutines this task starts during its current call go relative to it
+	spawnBias int8
+	biasSet   bool
+	biasCall  uint64
 
 	src        *Source
 	inCall     bool
@@ -172,7 +176,7 @@ func (w *World) startRun(schedSeed uint64) *Task {
 			perm[i], perm[j] = perm[j], perm[i]
 		}
 		for i, t := range w.tasks {
-			t.prio = perm[i] + 1
+			t.prio = (perm[i] + 1) * prioStep
 		}
 	}
 	first := w.pick(nil)
@@ -304,6 +308,7 @@ func Go(fn func()) {
 		return
 	}
 	child := w.newChild()
+	defer w.afterSpawn()
 	go func() {
 		raceDisable()
 		<-child.wake
@@ -333,6 +338,24 @@ func (w *World) newChild() *Task {
 	t.budget = p.budget
 	t.exitable = true
 	t.prio = p.prio
+	if w.inRun && w.Cfg.Sched == SchedPCT {
+		// its own priority, just above or just below its parent's: started before the parent goes
+		// on, or only when the parent waits
+		// (one draw per call of the parent decides whether all goroutines it starts go above it, all
+		// below, or each its own way: "every helper is done before the caller looks" and "no helper
+		// has started when the caller waits" are both ordinary executions)
+		if !p.biasSet || p.biasCall != p.callSerial {
+			p.biasSet, p.biasCall, p.spawnBias = true, p.callSerial, int8(w.srand()%3)-1
+		}
+		d := int(w.srand()%uint64(prioStep/2-1)) + 1
+		if p.spawnBias < 0 || (p.spawnBias == 0 && w.srand()&1 == 0) {
+			d = -d
+		}
+		t.prio = p.prio + d
+		if d > 0 {
+			w.Stats.ChildAbove++
+		}
+	}
 	w.tasks = append(w.tasks, t)
 	w.Stats.ChildTasks++
 	w.ev(EvUser, 0xfffd, uint32(t.id))
@@ -393,6 +416,38 @@ func (w *World) handToChild(next *Task, blocked bool) {
 	raceEnable()
 	w.mainParked = false
 }
+
+// AfterAtomic is a pre-emption point right after an atomic operation that produced v (simgen R8).
+func AfterAtomic[T any](site uint32, v T) T {
+	Yield(site, ClassSync)
+	return v
+}
+
+// prioStep separates the priorities of caller tasks (PCT), leaving room for the goroutines they start.
+const prioStep = 1024
+
+// higherPrio returns the runnable task of highest priority above t's, if any.
+//
+//go:norace
+func (w *World) higherPrio(t *Task) *Task {
+	var best *Task
+	for _, o := range w.tasks {
+		if o != t && o.state == taskRunnable && o.prio > t.prio && (best == nil || o.prio > best.prio) {
+			best = o
+		}
+	}
+	return best
+}
+
+// afterSpawn is a pre-emption point right after a go statement of library code (concurrent worlds).
+func (w *World) afterSpawn() {
+	if w.inRunNow() {
+		Yield(0, ClassSync)
+	}
+}
+
+//go:norace
+func (w *World) inRunNow() bool { return w.inRun && !w.dead }
 
 //go:norace
 func (w *World) callerBlocked() bool {
@@ -508,10 +563,14 @@ func Yield(site uint32, class int) {
 		next = w.pickOther(t, true)
 	case SchedPCT:
 		if w.pctNext >= len(w.Cfg.PCTPoints) || w.Stats.Yields < w.Cfg.PCTPoints[w.pctNext] {
-			return
+			// not a change point: the running task keeps the baton unless a task of higher priority
+			// has become runnable meanwhile (a goroutine the library just started with a higher
+			// priority than its parent, or a task that was unblocked)
+			next = w.higherPrio(t)
+			break
 		}
 		w.pctNext++
-		t.prio = -w.pctNext // below every initial priority and every earlier demotion
+		t.prio = -w.pctNext * prioStep // below every initial priority and every earlier demotion
 		next = w.pickOther(t, false)
 	}
 	if next == nil || next == t {
